@@ -346,9 +346,12 @@ def finish(res, module, level='model_checking', exhaustive_ok=True):
         log(f'  why: {v["why"]}  (unit {v["unit"]}, obligation {v["obligation"]}, {v.get("count", 1)} violating path(s))')
     if new_violations:
         return 1
-    if missing_reach:
+    budget_hit = any('time budget reached' in str(i.get('reason')) for i in res.inconclusive)
+    if missing_reach and not budget_hit:
         log('HARNESS-ERROR reachability witnesses missing (vacuous harness?):', missing_reach)
         return 2
+    if missing_reach:
+        log('NOTE reachability witnesses not seen before the time budget was reached:', missing_reach)
     if res.paths == 0:
         log('HARNESS-ERROR no path explored')
         return 2
